@@ -27,7 +27,8 @@ var idPool = []string{
 
 var badIds = []interface{}{"not-a-uuid", "1234", int64(5), "00000000-0000-4000-8000-00000000000g", true}
 
-var collNames = []string{"c", "cc", "d", "c d", "ü", "coll", "c:", "%d", "100%"}
+var collNames = []string{"c", "cc", "d", "c d", "ü", "coll", "c:", "%d", "100%", "a", "x", "n", // these three are also field names
+	strings.Repeat("L", 520), strings.Repeat("m", 590)} // and two long ones
 var fieldNames = []string{"a", "b", "ab", "x", "xy", "n", "n.a", "s", "_id", "t"}
 
 type HistCfg struct {
@@ -184,6 +185,9 @@ func (h *HistGen) doc(withId string) map[string]interface{} {
 			a[i] = int64(g.Intn(5))
 		}
 		m["arr"] = a
+	}
+	if !h.cfg.JSONSafe && g.Chance(0.05) {
+		m["_expiresAt"] = pickOf(g, []interface{}{time.Unix(1000, 0).UTC(), time.Unix(4102444800, 0).UTC(), time.Unix(1700000000, 5).In(zoneP2)})
 	}
 	if withId != "" {
 		m["_id"] = withId
@@ -531,6 +535,12 @@ func (h *HistGen) updater() Updater {
 func (h *HistGen) updateMap() map[string]interface{} {
 	g := h.g
 	m := map[string]interface{}{}
+	if g.Chance(0.12) {
+		// a single assignment that COMPARES equal to what many documents hold without being identical: an explicit nil for
+		// an absent field, the same small number under another Go kind
+		k := g.Intn(4)
+		return pickOf(g, []map[string]interface{}{{"zq": nil}, {"a": float64(k)}, {"a": uint64(k)}, {"b": float64(k)}, {"n.b": float64(k)}})
+	}
 	// pairwise prefix-unrelated paths (Go map iteration order would otherwise matter)
 	cands := [][]string{{"a"}, {"b"}, {"x"}, {"n.a", "n.a", "n", "n.b"}, {"s"}, {"xy"}}
 	for _, c := range cands {
@@ -846,8 +856,27 @@ func runHistory(g *Gen, cfg HistCfg, backend string, dumpEvery bool) (*HistResul
 	h := NewHistGen(g, cfg)
 	n := cfg.MinOps + g.Intn(cfg.MaxOps-cfg.MinOps+1)
 	res := &HistResult{Backend: backend}
+	// catalog focus, every other history: a scripted opening with indexes on prefix-related fields (x / xy, n / n.a) over
+	// a populated collection, then the shorter-named ones dropped: the longer-named indexes must keep every entry
+	var script []*Op
+	if cfg.Focus == "catalog" && histIndexOf(g)%2 == 0 {
+		c := h.names[0]
+		script = []*Op{{Kind: "CreateCollection", Coll: c}, {Kind: "CreateIndex", Coll: c, Field: "xy"}, {Kind: "CreateIndex", Coll: c, Field: "x"},
+			{Kind: "CreateIndex", Coll: c, Field: "n.a"},
+			{Kind: "Insert", Coll: c, Docs: []map[string]interface{}{h.doc(""), h.doc(""), {"x": int64(1), "xy": int64(2), "n": map[string]interface{}{"a": int64(3)}}, {"x": "s", "xy": nil}}},
+			{Kind: "CreateIndex", Coll: c, Field: "n"}, {Kind: "DropIndex", Coll: c, Field: "x"},
+			{Kind: "FindAll", Q: QSpec{Coll: c, Steps: []QStep{{Kind: "sort", Opts: []SortOpt{{"xy", 1}}}}}, Mode: 2},
+			{Kind: "DropIndex", Coll: c, Field: "n"},
+			{Kind: "FindAll", Q: QSpec{Coll: c, Steps: []QStep{{Kind: "sort", Opts: []SortOpt{{"n.a", -1}}}}}, Mode: 2}}
+		n += len(script)
+	}
 	for i := 0; i < n; i++ {
-		op := h.next()
+		var op *Op
+		if i < len(script) {
+			op = script[i]
+		} else {
+			op = h.next()
+		}
 		if op.Kind == "FindFirst" && !totalOrNoSort(op.Q) {
 			op.Kind = "Exists"
 		}
@@ -867,6 +896,34 @@ func runHistory(g *Gen, cfg HistCfg, backend string, dumpEvery bool) (*HistResul
 			}
 		}
 		res.Steps = append(res.Steps, StepRec{Op: op, Res: r, Dump: dump})
+	}
+	if !env.closed && !env.wedged && (cfg.Focus == "catalog" || histIndexOf(g)%3 == 0) {
+		// a collection that was never created: every operation reports its absence (with any window, sort or criteria) and
+		// changes nothing
+		c := "zz-never"
+		crit := &Crit{Kind: "cmp", Op: "OGt", Field: "a", Val: Operand{Lit: 1}}
+		for _, op := range []*Op{
+			{Kind: "FindAll", Q: QSpec{Coll: c, Steps: []QStep{{Kind: "limit", N: 0}}}, Mode: 2},
+			{Kind: "FindAll", Q: QSpec{Coll: c, Steps: []QStep{{Kind: "where", C: crit}, {Kind: "sort", Opts: []SortOpt{{"a", -1}}}, {Kind: "skip", N: 2}}}, Mode: 2},
+			{Kind: "Count", Q: QSpec{Coll: c, Steps: []QStep{{Kind: "where", C: crit}, {Kind: "limit", N: 0}}}},
+			{Kind: "Count", Q: QSpec{Coll: c, Steps: []QStep{{Kind: "limit", N: 0}}}},
+			{Kind: "ForEach", Q: QSpec{Coll: c, Steps: []QStep{{Kind: "limit", N: 0}}}, Stop: -1, Mode: 2},
+			{Kind: "Exists", Q: QSpec{Coll: c, Steps: []QStep{{Kind: "limit", N: 0}}}}, {Kind: "FindFirst", Q: QSpec{Coll: c, Steps: []QStep{{Kind: "skip", N: 1}}}},
+			{Kind: "FindById", Coll: c, Id: idPool[0]}, {Kind: "HasIndex", Coll: c, Field: "a"}, {Kind: "ListIndexes", Coll: c},
+			{Kind: "DeleteById", Coll: c, Id: idPool[0]}, {Kind: "UpdateById", Coll: c, Id: idPool[0], U: Updater{Kind: "funid"}},
+			{Kind: "Update", Q: QSpec{Coll: c, Steps: []QStep{{Kind: "limit", N: 0}}}, KVs: map[string]interface{}{"a": 1}},
+			{Kind: "Delete", Q: QSpec{Coll: c, Steps: []QStep{{Kind: "limit", N: 0}}}}, {Kind: "UpdateFunc", Q: QSpec{Coll: c}, U: Updater{Kind: "funid"}},
+			{Kind: "CreateIndex", Coll: c, Field: "a"}, {Kind: "DropIndex", Coll: c, Field: "a"}, {Kind: "DropCollection", Coll: c}, {Kind: "Export", Coll: c},
+			{Kind: "HasCollection", Coll: c},
+		} {
+			h.dist[op.Kind]++
+			r := op.exec(env)
+			dump, err := dumpStore(env.st.inner)
+			if err != nil {
+				dump = []T{int64(95), TS(err.Error())}
+			}
+			res.Steps = append(res.Steps, StepRec{Op: op, Res: r, Dump: dump})
+		}
 	}
 	if cfg.AllowClose {
 		// after Close every public operation must return an error (never panic, never block): one of each
@@ -889,6 +946,9 @@ func runHistory(g *Gen, cfg HistCfg, backend string, dumpEvery bool) (*HistResul
 	}
 	return res, h
 }
+
+// a number derived from the generator's seed, stable for one history
+func histIndexOf(g *Gen) int { return int(g.seed0 % 1000003) }
 
 // replay a fixed list of ops (shrinking, corpus)
 func runOps(ops []*Op, backend string) *HistResult {
